@@ -149,9 +149,10 @@ def kernel_group(name):
         try:
             src = open(os.path.join(REPO, spec["file"])).read()
             text = rustkern.find_fn(src, spec["fn"], spec.get("impl"), spec.get("nth", 0))
-            for pat, rep in spec.get("subst", []):
+            for item in spec.get("subst", []):
+                pat, rep, want = item[0], item[1], (item[2] if len(item) > 2 else 1)
                 text, n = re.subn(pat, rep, text)
-                if n != 1: die("%s::%s: substitution /%s/ matched %d times" % (spec["file"], spec["fn"], pat, n))
+                if n != want: die("%s::%s: substitution /%s/ matched %d times (expected %d)" % (spec["file"], spec["fn"], pat, n, want))
             res = spec.get("result", ("value",))
             fn = rustkern.parse_fn(text, res[1] if res[0] == "lets" else None)
             spec = dict(spec, doc="translated from `%s`, fn `%s`" % (spec["file"], spec["fn"]))
